@@ -84,6 +84,9 @@ def run(tier: str) -> int:
     model2, mres2 = docs.model_docs(*((4, 3) if tier == "quick" else (5, 3)), leafs={"P", "H", "B", "C", "T", "R"})     # tables and rules
     chk.add_tlc(mres2)
     model = {**model2, **model}
+    model3, mres3 = docs.model_docs(*((7, 5) if tier == "quick" else (9, 5)), leafs={"P", "B"})        # deep nesting, paragraphs and blank lines only
+    chk.add_tlc(mres3)
+    model = {**model3, **model}
     jobs = []
     seen = set()
     xs = [(toks, docgen.src(list(toks))) for toks in sorted(model)] + [(w, docgen.src(list(w))) for w in c01.WITNESS_S]
@@ -294,6 +297,12 @@ def finding_for(m) -> str | None:
                 return "D56"
         except BaseException:  # noqa: BLE001
             pass
+    # D59: the passes differ only by the trailing space of prefix-only lines inside quotes ('>' vs '> ')
+    l1, l2 = m["pass1"].split("\n"), m["pass2"].split("\n")
+    if "D59" in KF_OPEN and len(l1) == len(l2):
+        diff = [(a, b) for a, b in zip(l1, l2) if a != b]
+        if diff and all(a.strip(" >") == "" and b.strip(" >") == "" and ">" in a and a.rstrip() == b.rstrip() for a, b in diff):
+            return "D59"
     # D44, second face: a loose list that OPENS an item writes its separator before the marker of that item (a blank line in front of the
     # enclosing item; inside a quote '>' first and '> ' + '>' after the next pass).  Attributed only if the source has that shape and the two
     # passes differ by nothing but blank / prefix-only lines
